@@ -73,6 +73,7 @@ class World:
         self.notes = []
         self.log = []            # event log (for determinism digests)
         self.orders_seen = set()
+        self.alloc_armed = False # a node limit is in force for the current instruction (F-alloc)
         self.copy_caches = {}    # (src, dst) -> memo dict passed to dd._copy.copy_bdd
         self.copy_cache_tt = {}  # (src, dst) -> {source node: function it denoted when memoized}
         n0 = cfg.get('declared', self.nv)
